@@ -192,4 +192,223 @@ theorem nmtoken_accepts_iff (s : Str) : matchesAll N.nmtoken s = Spec.isNmtoken 
         simp [this]
       · intro h; cases h
 
+/-! Part 3: QName (element and attribute names) -/
+theorem matchesAll_qname (s : Str) :
+    matchesAll N.qname s = (match qnameP s with | some (_, []) => true | _ => false) := by
+  unfold matchesAll
+  have h := qname_run_rest 28 s
+  revert h
+  show (match run env 40 (.nt N.qname) s with | .ok _ r => some r | _ => none) = _ → _
+  cases run env 40 (.nt N.qname) s with
+  | ok c r =>
+    intro h
+    cases hq : qnameP s with
+    | none => simp [hq] at h
+    | some ar =>
+      obtain ⟨a, r'⟩ := ar
+      simp only [hq, Option.map_some, Option.some.injEq] at h
+      subst h
+      cases r <;> rfl
+  | fail =>
+    intro h
+    cases hq : qnameP s with
+    | none => rfl
+    | some ar => simp [hq] at h
+  | fuel =>
+    intro h
+    cases hq : qnameP s with
+    | none => rfl
+    | some ar => simp [hq] at h
+
+/-- what `ncnameP` hands back: the consumed part is an NCName, and what follows cannot continue it -/
+theorem ncnameP_spec (s a r : Str) (h : ncnameP s = some (a, r)) :
+    Spec.isNCName a = true ∧ a ++ r = s ∧ (r = [] ∨ ∃ d r', r = d :: r' ∧ ncRest d = false) := by
+  have happ := ncnameP_append h
+  cases s with
+  | nil => simp [ncnameP] at h
+  | cons c cs =>
+    simp only [ncnameP] at h
+    split at h
+    · next h1 =>
+      simp only [Option.some.injEq, Prod.mk.injEq] at h
+      obtain ⟨rfl, rfl⟩ := h
+      refine ⟨?_, happ, ?_⟩
+      · -- the consumed part alone is accepted by ncname
+        have hfull : ncnameP (c :: (spanP ncRest cs).1) = some (c :: (spanP ncRest cs).1, []) := by
+          simp only [ncnameP, h1, if_true]
+          have hall : ((spanP ncRest cs).1).all ncRest = true := List.all_eq_true.mpr (spanP_all ncRest cs)
+          have := spanP_of_all ncRest (spanP ncRest cs).1 [] hall (.inl rfl)
+          simp only [List.append_nil] at this
+          rw [this]
+        have := ncname_accepts_iff (c :: (spanP ncRest cs).1)
+        rw [matchesAll_ncname, hfull] at this
+        exact this.symm
+      · cases hr : (spanP ncRest cs).2 with
+        | nil => exact .inl rfl
+        | cons d r' =>
+          refine .inr ⟨d, r', rfl, ?_⟩
+          -- the first character of the remainder stopped the span
+          have : ∀ t : Str, ∀ d r', (spanP ncRest t).2 = d :: r' → ncRest d = false := by
+            intro t
+            induction t with
+            | nil => intro d r' h; simp [spanP] at h
+            | cons x xs ih =>
+              intro d r' h
+              simp only [spanP] at h
+              split at h
+              · exact ih d r' h
+              · next hx => simp only [List.cons.injEq] at h; obtain ⟨rfl, _⟩ := h; simpa using hx
+          exact this cs d r' hr
+    · cases h
+
+
+theorem isNCName_ncnameP (s : Str) : Spec.isNCName s = (match ncnameP s with | some (_, []) => true | _ => false) := by
+  rw [← ncname_accepts_iff, matchesAll_ncname]
+  all_goals (cases ncnameP s with
+    | none => rfl
+    | some ar => obtain ⟨a, r⟩ := ar; cases r <;> rfl)
+
+theorem not_contains_all (a : Str) (h : a.contains ':' = false) : a.all (· != ':') = true := by
+  induction a with
+  | nil => rfl
+  | cons x xs ih =>
+    simp only [List.contains_cons, Bool.or_eq_false_iff] at h
+    simp only [List.all_cons, Bool.and_eq_true, bne_iff_ne, ne_eq]
+    exact ⟨fun e => by subst e; simp at h, ih h.2⟩
+
+theorem span_colon (a r' : Str) (h : a.contains ':' = false) : spanP (· != ':') (a ++ ':' :: r') = (a, ':' :: r') :=
+  spanP_of_all (· != ':') a (':' :: r') (not_contains_all a h) (.inr ⟨':', r', rfl, by simp⟩)
+
+theorem isNCName_no_colon (t : Str) (h : Spec.isNCName t = true) : t.contains ':' = false := by
+  simp only [Spec.isNCName, Bool.and_eq_true, Bool.not_eq_true'] at h; exact h.2
+
+/-- a string with a character that is not a NameChar behind its first character is no Name -/
+theorem isName_false_of_bad (c : Char) (a' : Str) (d : Char) (r' : Str) (hd : P.isNameChar d = false) :
+    Spec.isName (c :: a' ++ d :: r') = false := by
+  simp only [Spec.isName, List.cons_append, Bool.and_eq_false_iff]
+  right
+  have hfun : (fun x : Char => Spec.isNameChar x.toNat) = P.isNameChar := (funext P_nameChar).symm
+  rw [hfun]
+  simp [List.all_append, hd]
+
+theorem ncRest_false_not_colon (d : Char) (h : ncRest d = false) (hd : d ≠ ':') : P.isNameChar d = false := by
+  simp only [ncRest, P.except, Bool.and_eq_false_iff, Bool.not_eq_false'] at h
+  rcases h with h | h
+  · exact h
+  · simp only [List.contains_cons, List.contains_nil, Bool.or_false, beq_iff_eq] at h; exact absurd h hd
+
+
+theorem spanP_append_all' (p : Char → Bool) : ∀ (s t : Str), s.all p = true → spanP p (s ++ t) = (s ++ (spanP p t).1, (spanP p t).2)
+  | [], t, _ => by simp
+  | c :: cs, t, h => by
+    simp only [List.all_cons, Bool.and_eq_true] at h
+    simp [spanP, h.1, spanP_append_all' p cs t h.2]
+
+/-- C18: the strings accepted as QName (element and attribute names) are exactly those of Namespaces [7]: an NCName, or two
+    NCNames separated by one colon -/
+theorem qname_accepts_iff (s : Str) : matchesAll N.qname s = Spec.isQName s := by
+  rw [matchesAll_qname]
+  cases hn : ncnameP s with
+  | none =>
+    -- nothing that begins like a name: not an NCName, and no NCName in front of a colon either
+    simp only [qnameP, hn]
+    have h1 : Spec.isNCName s = false := by rw [isNCName_ncnameP, hn]
+    simp only [Spec.isQName, h1, Bool.false_or]
+    cases hsp : spanP (· != ':') s with
+    | mk p rest =>
+      cases rest with
+      | nil => rfl
+      | cons x l =>
+        by_cases hx : x = ':'
+        · subst hx
+          simp only
+          have hp : Spec.isNCName p = false := by
+            cases p with
+            | nil => simp [Spec.isNCName, Spec.isName]
+            | cons c p' =>
+              -- c is the first character of s and is not a colon: it is not a NameStartChar
+              have happ := spanP_append (· != ':') s
+              rw [hsp] at happ
+              have hc : (c != ':') = true := by
+                have := spanP_all (· != ':') s c (by rw [hsp]; simp)
+                exact this
+              cases s with
+              | nil => simp at happ
+              | cons c0 cs =>
+                simp only [List.cons_append, List.cons.injEq] at happ
+                obtain ⟨rfl, _⟩ := happ
+                simp only [ncnameP] at hn
+                split at hn
+                · cases hn
+                · next hbad =>
+                  have : P.isNameStartChar c = false := by
+                    simp only [Bool.and_eq_true, not_and, Bool.not_eq_true] at hbad
+                    exact hbad hc
+                  rw [P_nameStart] at this
+                  simp [Spec.isNCName, Spec.isName, this]
+          simp [hp]
+        · split
+          · next heq => simp only [Prod.mk.injEq, List.cons.injEq] at heq; exact absurd heq.2.1 hx
+          · rfl
+  | some ar =>
+    obtain ⟨a, r⟩ := ar
+    obtain ⟨ha, happ, hr⟩ := ncnameP_spec s a r hn
+    have hanc := isNCName_no_colon a ha
+    rcases hr with rfl | ⟨d, r', rfl, hd⟩
+    · -- the whole string is one NCName
+      simp only [List.append_nil] at happ; subst happ
+      simp [qnameP, hn, Spec.isQName, ha]
+    · by_cases hdc : d = ':'
+      · subst hdc
+        subst happ
+        have hs : Spec.isNCName (a ++ ':' :: r') = false := by
+          simp [Spec.isNCName]
+        simp only [Spec.isQName, hs, Bool.false_or, span_colon a r' hanc, ha, Bool.true_and]
+        simp only [qnameP, hn]
+        rw [isNCName_ncnameP r']
+        cases hn2 : ncnameP r' with
+        | none => rfl
+        | some br => obtain ⟨b, r''⟩ := br; cases r'' <;> rfl
+      · -- a character that can neither continue the name nor separate two names
+        subst happ
+        have hbad := ncRest_false_not_colon d hd hdc
+        have hq2 : qnameP (a ++ d :: r') = some (a, d :: r') := by
+          simp only [qnameP, hn]
+          split
+          · next heq => simp only [List.cons.injEq] at heq; exact absurd heq.1 hdc
+          · rfl
+        rw [hq2]
+        cases a with
+        | nil => simp [Spec.isNCName, Spec.isName] at ha
+        | cons c a' =>
+          have h1 : Spec.isNCName (c :: a' ++ d :: r') = false := by
+            have := isName_false_of_bad c a' d r' hbad
+            simp only [Spec.isNCName, this, Bool.false_and]
+          simp only [Spec.isQName, h1, Bool.false_or]
+          -- the part in front of the first colon (if there is one) still holds d
+          have hall : (c :: a').all (· != ':') = true := not_contains_all _ hanc
+          cases hsp : spanP (· != ':') (c :: a' ++ d :: r') with
+          | mk p rest =>
+            have hp : ∃ p'', p = c :: a' ++ d :: p'' := by
+              have h2 := spanP_append_all' (· != ':') (c :: a') (d :: r') hall
+              rw [hsp] at h2
+              simp only [spanP, bne_iff_ne, ne_eq, hdc, not_false_eq_true, decide_true, if_true, Prod.mk.injEq] at h2
+              exact ⟨_, h2.1⟩
+            obtain ⟨p'', rfl⟩ := hp
+            cases rest with
+            | nil => rfl
+            | cons x l =>
+              by_cases hx : x = ':'
+              · subst hx
+                have h3 : Spec.isNCName (c :: a' ++ d :: p'') = false := by
+                  have := isName_false_of_bad c a' d p'' hbad
+                  simp only [Spec.isNCName, this, Bool.false_and]
+                simp only [h3, Bool.false_and]
+              · split
+                · next heq => simp only [Prod.mk.injEq, List.cons.injEq] at heq; exact absurd heq.2.1 hx
+                · rfl
+
+example : matchesAll N.qname ['p', ':', 'a'] = true ∧ matchesAll N.qname ['p', ':', ':', 'a'] = false ∧ matchesAll N.qname [':', 'a'] = false := by
+  rw [qname_accepts_iff, qname_accepts_iff, qname_accepts_iff]; decide
+
 end XmlRs.C18
